@@ -373,8 +373,9 @@ def _write_stats(case, d):
     items = _posts_of(case, d)
     for j, p in enumerate(items):
         if p["kind"] == "standardize" and "rfilename" in p["kw"]:
-            comp = _mk_computer(COMPUTERS[case["computer"]])
-            probe = _common.make_rng(case["data_seed"], "c09:statsprobe").standard_normal((12, int(comp.num_coeffs)))
+            # (no computer: the torch tool stores the raw samples as ONE column)
+            ncoef = 1 if case["computer"] is None else int(_mk_computer(COMPUTERS[case["computer"]]).num_coeffs)
+            probe = _common.make_rng(case["data_seed"], "c09:statsprobe").standard_normal((12, ncoef))
             with warnings.catch_warnings():
                 warnings.simplefilter("ignore")
                 for q in items[:j]:
